@@ -5,7 +5,7 @@ EXTENDS Naturals, Sequences, FiniteSets, TLC, Json, IOUtils
 Rec == ndJsonDeserialize(IOEnv.TRACE)
 Judge(r) ==
   LET ref == r.runs[1]
-      diff == {i \in 2..Len(r.runs) : r.runs[i].outcome # ref.outcome \/ r.runs[i].fp # ref.fp \/ r.runs[i].err # ref.err}
+      diff == {i \in 2..Len(r.runs) : r.runs[i].outcome # ref.outcome \/ r.runs[i].fp # ref.fp}     \* acceptance and tree; the position of an error is not part of C17
       typed == {i \in 1..Len(r.runs) : r.runs[i].outcome \notin {"ok", "err"}}
   IN (IF typed # {} THEN <<"outcome is not Ok or a structured Error", ToString(r.runs[CHOOSE i \in typed : TRUE].cap)>> ELSE <<>>)
      \o (IF diff # {} THEN LET i == CHOOSE i \in diff : TRUE
